@@ -45,17 +45,18 @@ Section Final.
     (t = TT -> v_negative v) /\ (t = TF -> ~ v_negative v).
   Proof. intros. eapply negative_sound; eauto. eapply assum_of_ok; eauto. Qed.
 
-  Theorem nonnegative_final_guarded : forall e t v, sign_guard e = true ->
+  Theorem nonnegative_final : forall e t v,
     is_nonnegative A e = QT t -> denote rho e = Some v ->
     (t = TT -> v_nonnegative v) /\ (t = TF -> ~ v_nonnegative v).
-  Proof. intros. eapply nonnegative_sound_guarded; eauto. eapply assum_of_ok; eauto. Qed.
+  Proof. intros. eapply nonnegative_sound; eauto. eapply assum_of_ok; eauto. Qed.
 
-  Theorem nonpositive_final_guarded : forall e t v, sign_guard e = true ->
+  Theorem nonpositive_final : forall e t v,
     is_nonpositive A e = QT t -> denote rho e = Some v ->
     (t = TT -> v_nonpositive v) /\ (t = TF -> ~ v_nonpositive v).
-  Proof. intros. eapply nonpositive_sound_guarded; eauto. eapply assum_of_ok; eauto. Qed.
+  Proof. intros. eapply nonpositive_sound; eauto. eapply assum_of_ok; eauto. Qed.
 
-  Theorem positive_final_guarded : forall e t v, pos_guard e = true ->
+  (* pos_guard e: every sum in e has at least one term (well-formedness of the dump) *)
+  Theorem positive_final : forall e t v, pos_guard e = true ->
     is_positive A e = QT t -> denote rho e = Some v ->
     (t = TT -> v_positive v) /\ (t = TF -> ~ v_positive v).
   Proof. intros. eapply positive_sound_guarded; eauto. eapply assum_of_ok; eauto. Qed.
@@ -105,23 +106,16 @@ Proof. intro z. constructor; [|constructor]. cbn. exact I. Qed.
 Lemma sat_pos_x : osat (rho_const (1, 0)) st_pos_x.
 Proof. constructor; [|constructor]. cbn. split; [reflexivity|]. unfold Qlt. cbn. lia. Qed.
 
-(* NonNegativeVisitor / NonPositiveVisitor answer true for nan and for zoo *)
-Theorem nonnegative_refuted_nan : exists e v, is_nonnegative None e = QT TT /\ is_nonpositive None e = QT TT /\
-  (forall rho, denote rho e = Some v) /\ ~ v_nonnegative v /\ ~ v_nonpositive v.
-Proof. exists (ENum NNaN), VNaN. repeat split; try reflexivity; intro H; exact H. Qed.
-Theorem nonnegative_refuted_zoo : exists e v, is_nonnegative None e = QT TT /\ is_nonpositive None e = QT TT /\
-  (forall rho, denote rho e = Some v) /\ ~ v_nonnegative v /\ ~ v_nonpositive v.
-Proof. exists (ENum (NInf 0)), VZoo. repeat split; try reflexivity; intro H; exact H. Qed.
-
-(* PositiveVisitor(Add) with a Complex coefficient: x + (1 + I), x > 0, at x = 1 *)
+(* regression examples for the repaired rules (fix commits 089e9a7, 7182169, 8ffd80b): the former
+   counterexamples now get a sound answer *)
 Definition e_pos_cplx : expr := EAdd (NCplx 1 1 1 1) [(sx, NInt 1)].
-Theorem positive_refuted_complex_coefficient : exists st A rho e v,
-  assum_of st = Ok A /\ osat rho st /\ is_positive A e = QT TT /\ denote rho e = Some v /\ ~ v_positive v.
-Proof.
-  eexists st_pos_x, _, (rho_const (1, 0)), e_pos_cplx, _. split; [vm_compute; reflexivity|].
-  split; [exact sat_pos_x|]. split; [vm_compute; reflexivity|]. split; [cbn; reflexivity|].
-  cbn [v_positive]. unfold qi_real. intros [H _]. unfold Qeq in H. vm_compute in H. discriminate H.
-Qed.
+Definition e_add_two_nonreal : expr := EAdd (NCplx 1 1 1 1) [(sx, NCplx 0 1 1 1)].
+Example repaired_rules :
+  is_nonnegative None (ENum NNaN) = QT TF /\ is_nonpositive None (ENum NNaN) = QT TF /\
+  is_nonnegative None (ENum (NInf 0)) = QT TF /\ is_nonpositive None (ENum (NInf 0)) = QT TF /\
+  (exists A, assum_of st_pos_x = Ok A /\ is_positive A e_pos_cplx = QT TI) /\
+  (exists A, assum_of st_real_x = Ok A /\ is_real A e_add_two_nonreal = QT TI).
+Proof. repeat split; try (eexists; split; vm_compute; reflexivity); vm_compute; reflexivity. Qed.
 
 (* RealVisitor(Mul): I*x with x real is "not real"; at x = 0 the value is 0 *)
 Definition e_ix : expr := EMul (NCplx 0 1 1 1) [(sx, ENum (NInt 1))].
@@ -130,16 +124,6 @@ Theorem real_false_refuted_mul : exists st A rho e v,
 Proof.
   eexists st_real_x, _, (rho_const (0, 0)), e_ix, _. split; [vm_compute; reflexivity|].
   split; [exact (sat_real_x 0)|]. split; [vm_compute; reflexivity|]. split; [cbn; reflexivity|].
-  cbn [v_real]. unfold qi_real, Qeq. vm_compute. reflexivity.
-Qed.
-
-(* RealVisitor(Add): (1 + I) + I*x with x real is "not real"; at x = -1 the value is 1 *)
-Definition e_add_two_nonreal : expr := EAdd (NCplx 1 1 1 1) [(sx, NCplx 0 1 1 1)].
-Theorem real_false_refuted_add : exists st A rho e v,
-  assum_of st = Ok A /\ osat rho st /\ is_real A e = QT TF /\ denote rho e = Some v /\ v_real v.
-Proof.
-  eexists st_real_x, _, (rho_const (-1 # 1, 0)), e_add_two_nonreal, _. split; [vm_compute; reflexivity|].
-  split; [exact (sat_real_x (-1 # 1))|]. split; [vm_compute; reflexivity|]. split; [cbn; reflexivity|].
   cbn [v_real]. unfold qi_real, Qeq. vm_compute. reflexivity.
 Qed.
 
